@@ -108,14 +108,14 @@ def body():
                         chk.count((m.id, "hyp", k, vname, ibd), n >= 2)
                         chk.cov["obligations_replayed"] += 1
                         e_ = np.abs(W - want).max() / max(1e-3, np.abs(want).max())
-                        if e_ > TOL:
+                        if not (e_ <= TOL):   # NaN counts as a deviation
                             fail("decomposition:hypersingular", "hypersingular matrix (k=%s, P1 %s, boundary dofs %s) differs from sum C'V0C - k^2 sum N'V1N by %.3g" % (k, vname, ibd, e_))
                         if k == 0.0 and closed and vname == "all":
-                            if np.abs(W.dot(np.ones(W.shape[1]))).max() > 1e-10 * np.abs(W).max():
+                            if not (np.abs(W.dot(np.ones(W.shape[1]))).max() <= 1e-10 * np.abs(W).max()):   # NaN counts as a deviation
                                 fail("hypersingular:constants", "the Laplace hypersingular matrix does not annihilate constants on a closed surface")
                         if k not in (0.0,) and isinstance(k, complex) and k.real == 0:
                             Wm = b.modified_helmholtz.hypersingular(P1, P1, P1, k.imag).weak_form().to_dense()
-                            if np.abs(Wm - want).max() > TOL * max(1e-3, np.abs(want).max()):
+                            if not (np.abs(Wm - want).max() <= TOL * max(1e-3, np.abs(want).max())):   # NaN counts as a deviation
                                 fail("decomposition:modified_hypersingular", "modified Helmholtz hypersingular (w=%s) differs from the decomposition" % k.imag)
                         if Eloc is not None and not vname.startswith("swap"):
                             try:
@@ -131,7 +131,7 @@ def body():
                             chk.count((m.id, "efield", k, vname, ibd), n >= 2)
                             chk.cov["obligations_replayed"] += 1
                             e_ = np.abs(Em - wantE).max() / max(1e-3, np.abs(wantE).max())
-                            if e_ > TOL:
+                            if not (e_ <= TOL):   # NaN counts as a deviation
                                 fail("decomposition:electric_field", "electric-field matrix (k=%s, %s, boundary dofs %s) differs from -ik sum R'V1R - 1/(ik) D'V0D by %.3g" % (k, vname, ibd, e_))
             if not quick and closed:
                 par.quadrature.regular, par.quadrature.singular = 8, 8
@@ -141,7 +141,7 @@ def body():
                     # same edge space: compare in the RWG numbering (SNC shares dof map and multipliers)
                     asym = np.abs(A - A.T).max() / np.abs(A).max()
                     chk.part("maxwell_symmetry_defect", **{"%s_%s" % (label, nm): float(asym)})
-                    if asym > 1e-3:
+                    if not (asym <= 1e-3):   # NaN counts as a deviation
                         fail("symmetry:%s" % nm, "%s matrix is not complex-symmetric at orders (8,8): %.3g" % (nm, asym))
                 par.quadrature.regular, par.quadrature.singular = 4, 4
             if mi < 2:
